@@ -1,7 +1,7 @@
 (* C07: generated keys -- the value-dependent part: fixed-size key material and signature halves
    as MPIs survive the wire for EVERY value, however many leading zero octets it has. *)
 From Coq Require Import List NArith Lia Bool.
-From Rpgp Require Import Base.Octets Key.Scalar Key.ScalarProofs.
+From Rpgp Require Import Base.Octets Key.Scalar Key.ScalarProofs Key.Flags Key.FlagsProofs.
 Import ListNotations.
 Open Scope N_scope.
 
@@ -21,3 +21,26 @@ Theorem C07_scalar_roundtrip : forall n b rest, lenN b = n -> n <= 8191 ->
   end.
 Proof. exact scalar_roundtrip. Qed.
 Print Assumptions C07_scalar_roundtrip.
+
+(* what the self-signatures of a generated key say about its capabilities: the Key Flags octet is a
+   function of the request that can be read back exactly -- every capability has its own bit, and asking
+   for one kind of encryption never sets the other (compared with the flags of every generated key and subkey) *)
+Theorem C07_flags_say_what_was_requested : forall r, request_of_octet (flags_octet r) = r.
+Proof. exact request_roundtrip. Qed.
+Print Assumptions C07_flags_say_what_was_requested.
+
+Theorem C07_flags_distinguish_requests : forall r1 r2, flags_octet r1 = flags_octet r2 -> r1 = r2.
+Proof. exact flags_octet_injective. Qed.
+Print Assumptions C07_flags_distinguish_requests.
+
+Theorem C07_communication_only_is_not_storage : forall c s a,
+  has (flags_octet {| r_certify := c; r_sign := s; r_enc := CapComm; r_auth := a |}) 4 = true /\
+  has (flags_octet {| r_certify := c; r_sign := s; r_enc := CapComm; r_auth := a |}) 8 = false.
+Proof. exact comm_only_sets_comm. Qed.
+Print Assumptions C07_communication_only_is_not_storage.
+
+Theorem C07_storage_only_is_not_communication : forall c s a,
+  has (flags_octet {| r_certify := c; r_sign := s; r_enc := CapStor; r_auth := a |}) 4 = false /\
+  has (flags_octet {| r_certify := c; r_sign := s; r_enc := CapStor; r_auth := a |}) 8 = true.
+Proof. exact stor_only_sets_stor. Qed.
+Print Assumptions C07_storage_only_is_not_communication.
